@@ -93,10 +93,48 @@ def term(c, out):
         cnat(c['max_size']), cZ(c['step'].numerator), cZ(c['step'].denominator), cZ(c['stop_rel'].numerator), cZ(c['stop_rel'].denominator))
 
 
-def run_impl(c):
+class record_ranges:
+    """Harness-side wrapper (no change to /repo): logs the reduced range handed to split_subnet each time
+    adaptive_link_wrap shrinks the range of an oversize group."""
+    def __init__(self, log):
+        self.log = log
+
+    def __enter__(self):
+        from trackpy.linking import linking as L
+        self.L, self.orig = L, L.split_subnet
+        log, orig = self.log, self.orig
+
+        def split_subnet(source, dest, new_range):
+            log.append(float(new_range))
+            return orig(source, dest, new_range)
+        L.split_subnet = split_subnet
+        return self
+
+    def __exit__(self, *a):
+        self.L.split_subnet = self.orig
+
+
+def ladder_fault(c, ranges, exact=True):
+    """every reduced range must be search_range * adaptive_step^n for some n >= 1 whose predecessor is still above adaptive_stop"""
+    sr, step, stop = Fraction(c['sr']), Fraction(c['step']), Fraction(c['sr']) * Fraction(c['stop_rel'])
+    for r in ranges:
+        ok, cur, n = False, sr, 0
+        while n < 400 and cur > stop:
+            cur, n = cur * step, n + 1
+            # the product is an exact float only while its odd part fits in 53 bits (e.g. 8*(15/16)^14 does not)
+            fits = exact and cur.numerator < 2 ** 53 and (cur.denominator & (cur.denominator - 1)) == 0
+            if (fits and Fraction(r) == cur) or (not fits and abs(Fraction(r) - cur) <= cur * Fraction(1, 10 ** 12)):
+                ok = True; break
+        if not ok:
+            return 'range %r used for an oversize group is not search_range*adaptive_step^n (search_range=%s, adaptive_step=%s, adaptive_stop=%s)' % (r, sr, step, float(stop))
+    return None
+
+
+def run_impl(c, ranges=None):
     stop = float(c['sr'] * c['stop_rel'])
-    return linkgen.run_link_iter(c['frames'], c['sr'], memory=c['memory'], link_strategy=c['strategy'], max_size=c['max_size'],
-                                 adaptive=(stop, float(c['step'])))
+    with record_ranges(ranges if ranges is not None else []):
+        return linkgen.run_link_iter(c['frames'], c['sr'], memory=c['memory'], link_strategy=c['strategy'], max_size=c['max_size'],
+                                     adaptive=(stop, float(c['step'])))
 
 
 def corpus():
@@ -124,7 +162,14 @@ def run(chk):
         c02.safe_strategy(c)
         if degenerate(c):
             chk.tally('skipped: pair within 1e-9 of a reduced range (float boundary)'); continue
-        out = run_impl(c)
+        ranges = []
+        out = run_impl(c, ranges)
+        why = ladder_fault(c, ranges)
+        if ranges:
+            chk.tally('reduced ranges observed (deepest level %d)' % len(set(ranges)))
+        if why:
+            chk.violation('adaptive link_iter: reduced range off the ladder', why, dict(kind='adaptive', code=20, case=jsonable(c, out), ranges=ranges))
+            continue
         terms.append(term(c, out)); metas.append((c, out))
         chk.tally('step=%s' % c['step']); chk.tally('limit=%d' % c['max_size'])
         chk.tally('raised' if (out and out[-1] is None) else 'returned')
@@ -139,6 +184,24 @@ def run(chk):
             chk.violation('adaptive link_iter: %s' % CODES.get(r, r),
                           'link_iter(%s, limit=%d, adaptive_step=%s, adaptive_stop=%s*search_range): %s' % (c['strategy'], c['max_size'], c['step'], c['stop_rel'], CODES.get(r, r)),
                           dict(kind='adaptive', code=r, case=jsonable(c, out)))
+    # decimal steps (0.95 is the documented default): the reduced ranges are not exact floats, so the model is not run;
+    # the ladder of ranges actually used is still checked (to 1e-12), in pixel units and in units of 2^10 and 2^-12 pixels
+    for k in range(40 if chk.tier == 'quick' else 1200):
+        c = gen(chk.rng, chk.tier)
+        c['step'] = chk.rng.choice([Fraction(19, 20), Fraction(9, 10), Fraction(4, 5), Fraction(7, 10)])
+        uexp = chk.rng.choice([0, 0, 10, -12])
+        c['sr'] = c['sr'] * Fraction(2) ** uexp
+        c['frames'] = [f * 2.0 ** uexp for f in c['frames']]
+        if linkgen.max_inrange(c['frames'], c['sr'], c['memory']) > 8:
+            continue
+        c02.safe_strategy(c)
+        ranges = []
+        out = run_impl(c, ranges)
+        chk.count(('ladder', jsonable(c, out)), bool(ranges))
+        chk.tally('decimal step %s, unit 2^%d' % (c['step'], uexp))
+        why = ladder_fault(c, ranges, exact=False)
+        if why:
+            chk.violation('adaptive link_iter: reduced range off the ladder', why, dict(kind='adaptive', code=20, case=jsonable(c, out), ranges=ranges, decimal=True))
     if metas:
         chk.sample(jsonable(metas[0][0], metas[0][1]))
     chk.coverage['rule'] = ("dense lattice clusters + sparse walkers, 1-3 D, MAX_SUB_NET_SIZE_ADAPTIVE in 2..5, adaptive_step in {1/2,3/4,7/8,15/16} (exact in binary), "
@@ -155,7 +218,18 @@ def replay(chk, path):
     ndim = max([f.shape[1] for f in frames if f.size] or [1])
     c = dict(frames=[f.reshape(len(f), ndim) for f in frames], sr=Fraction(cj['search_range']), memory=cj['memory'], ndim=ndim, max_size=cj['max_size'],
              strategy=cj['link_strategy'], step=Fraction(cj['adaptive_step']), stop_rel=Fraction(cj['adaptive_stop_rel']))
-    out = run_impl(c)
+    ranges = []
+    out = run_impl(c, ranges)
+    rp = json.load(open(path))['replay']
+    why = ladder_fault(c, ranges, exact=not rp.get('decimal'))
+    print('replay: reduced ranges used', ranges)
+    if why:
+        chk.count(('replay', cj), True)
+        chk.violation('adaptive link_iter: reduced range off the ladder', why, dict(kind='adaptive', code=20, case=jsonable(c, out), ranges=ranges, decimal=rp.get('decimal', False)))
+        return
+    if rp.get('decimal'):
+        chk.count(('replay', cj), True)
+        print('replay: ladder respected'); return
     r = common.coq_eval_lists(chk.work, IMPORTS, FUNC, [term(c, out)])[0]
     chk.count(('replay', cj), True)
     print('replay: labels', out, 'monitor code', r, CODES.get(r))
